@@ -1029,12 +1029,20 @@ def run_stream(case):
                     log.append(([enc(tofr(sb.inclusion_bounds.lower.as_watts())), enc(tofr(sb.exclusion_bounds.lower.as_watts())),
                                  enc(tofr(sb.exclusion_bounds.upper.as_watts())), enc(tofr(sb.inclusion_bounds.upper.as_watts()))], sb))
 
+        shared = J.ComponentPoolStatus(working=set(), uncertain=set())
+
         async def do(op):
             k = op["op"]
             if k == "status":
                 working.clear()
                 working.update(set(op["working"]) & set(bats))
-                await status_tx.send(J.ComponentPoolStatus(working=set(op["working"]), uncertain=set()))
+                if case.get("producer", "fresh") == "mutate":
+                    # as the SDK's ComponentPoolStatusTracker does: ONE object, mutated in place and re-sent
+                    shared.working.clear()
+                    shared.working.update(op["working"])
+                    await status_tx.send(shared)
+                else:
+                    await status_tx.send(J.ComponentPoolStatus(working=set(op["working"]), uncertain=set()))
             elif k == "request":
                 if len(tasks) == 1:
                     tasks.append(aio.create_task(collect(pool._system_power_bounds.new_receiver())))
@@ -1137,7 +1145,9 @@ class BoundsStreamStream(Stream):
     n_thorough = 2000
 
     def gen(self, rng, tier):
-        yield from stream_boundary_cases()
+        for c in stream_boundary_cases():
+            yield c
+            yield {**c, "producer": "mutate"}
         for _ in range(self.n_quick if tier == "quick" else self.n_thorough):
             yield gen_stream_case(rng)
 
@@ -1219,7 +1229,7 @@ class BoundsStreamStream(Stream):
             return ["impl_error"]
         flat = lambda ops: [x for o in ops for x in ([o] if o["op"] != "burst" else flat(o["ops"]))]
         sc = flat(case["script"])
-        out = [f"groups={len(case['groups'])}", f"steps={len(case['script'])}"]
+        out = [f"groups={len(case['groups'])}", f"steps={len(case['script'])}", f"status_producer={case.get('producer', 'fresh')}"]
         if any(len(g[0]) > 1 for g in case["groups"]):
             out.append("shared_inverter_set")
         if any(o["op"] == "burst" for o in case["script"]):
@@ -1301,7 +1311,7 @@ def gen_stream_case(rng):
         rel = rng.choice([F(1, 10 ** 7), F(1, 2 * 10 ** 6), F(9, 10 ** 7), F(1, 10 ** 5), F(1, 10 ** 4)]) * rng.choice([1, -1, -1])
         script.append({"op": "drift", "id": rng.choice(comps if rng.random() < 0.3 else bats), "k": rng.randrange(4),
                        "rel": enc(rel), "steps": steps})
-    return {"groups": groups, "init": init, "script": script,
+    return {"groups": groups, "init": init, "script": script, "producer": rng.choice(["fresh", "mutate", "mutate"]),
             "deltas": [enc(rng.choice([F(1, 1000), F(1, 10 ** 6)])), enc(rng.choice([F(1), F(17)]))]}
 
 
